@@ -396,6 +396,12 @@ func main() {
 				}
 			}
 		}
+		// a valid file whose header carries a stanza line longer than 4 KiB (the size of the parser's own buffered reader)
+		if long, err := lab.Encrypt([]age.Recipient{&lab.Unknown{Type: "long", N: 1, Args: []string{strings.Repeat("a", 5000)}}, x0.Rcpt}, lab.Plain(C+1, c.Seed+8), false, nil); err == nil {
+			files = append(files, tf{"valid.long-header-line", long, false, seamsOf(long, false), !scaled})
+		} else {
+			panic(err)
+		}
 		// armored files whose last base64 line is full (binary length a multiple of 48) and whose final chunk is full: the
 		// decryptor's end-of-payload probe is then the first read to reach the END line
 		for r := 1; r <= 16; r++ {
